@@ -48,6 +48,9 @@ func genC10(seed uint64) *Scenario {
 		}
 	}
 	nval := pick(r, []int{2, 3, 4, 4, 5, 6})
+	if deep() {
+		nval = pick(r, []int{3, 4, 6, 8, 10})
+	}
 	for i := 0; i < nval; i++ {
 		if r.Chance(300) {
 			churn()
